@@ -284,7 +284,7 @@ def run(ctx):
             if "pop_state did not restore" in what and any(o[0].startswith("from_python") for o in ops[:step]):
                 cls = ["D37"]
             pending.append((dict(case, step=step), what, cls))
-        if len(obs) == len(ops) + 1:
+        if len(obs) == len([o for o in ops if o[0] != "copy"]) + 1:      # (copy is not an operation of the abstract machine)
             ev, fm = mgen.tables([mt] + [o[1] for o in ops if o[0] == "update"] + texts)
             reqs.append(["index", enc(mt), wire, ev, fm + fm_extra])
             impls.append(["ok", obs])
